@@ -481,6 +481,10 @@ def cases(tier):
         for a, b, c in itertools.product(["set", "fail_recv", "close", "quit"], repeat=3):
             if (common.h64((a, b, c, ms)) % (8 if tier == "quick" else 2)) == 0:
                 out.append((("client", ((a, c), (b,)), ms), 1 if tier == "quick" else 2))
+    # a thread that goes on after quit()/a failed call while another thread checks out: two preemptions are needed to
+    # hand a doubly-released connection to two threads; explored exhaustively even in quick (budget override)
+    for first in ("quit", "fail_recv", "illegal_key"):
+        out.append((("client", ((first, "set"), ("set",)), 2), 2, 9000))
     return out
 
 
@@ -490,11 +494,14 @@ def shard(tier, seed, idx, n):
     S.install(pool_codes(), mode)
     cs = cases(tier)
     allex = True
-    for ci, (case, P) in enumerate(cs):
+    for ci, entry in enumerate(cs):
+        case, P = entry[0], entry[1]
         if ci % n != idx:
             continue
         budget = 700
-        if tier == "thorough":
+        if len(entry) > 2:
+            budget = entry[2]
+        elif tier == "thorough":
             P = P + 1
             single_ops = all(len(p) == 1 for p in case[1])
             # two single-operation threads: exhaustive within the bound; longer programs: a large shuffled-DFS budget
@@ -506,7 +513,8 @@ def shard(tier, seed, idx, n):
     if tier == "thorough":
         # INSTRUCTION granularity on the pool-alone programs, P=2
         S.install(pool_codes(), "ins")
-        for ci, (case, P) in enumerate(cs):
+        for ci, entry in enumerate(cs):
+            case, P = entry[0], entry[1]
             if ci % n != idx or case[0] != "pool" or len(case[1]) != 2 or any(len(p) > 1 for p in case[1]):
                 continue
             ex, exhaustive = explore(res, case, 2, "ins", 12000, random.Random(seed + ci))
